@@ -9,7 +9,7 @@
      4. `boundary` arithmetic, the crux `split_valid`, `slice_valid`, and the converses
         (`valid_firstn_boundary`, `valid_skipn_boundary`, `valid_slice_boundaries`)
      5. the characterisation by scalar values: `valid_iff_scalars`
-     6. bytewise lexicographic order = code point order on encodings (`lex_encode_scalars`) *)
+   (bytewise order = code point order, `lex_encode_scalars`, is in Proofs/BStrFacts.v §6) *)
 From AN Require Import Base.Utf8.
 From Coq Require Import Lia.
 
